@@ -23,13 +23,14 @@ RecSpace ==
 
 CfgSpace(role, dtls) ==
     { c \in [kx : KxSet, resumed : BOOLEAN, cauth : BOOLEAN, tick : BOOLEAN, psk13 : BOOLEAN,
-             early : BOOLEAN, fam : {"L", "T13"}, dtls : {dtls}, retry : BOOLEAN] :
+             early : BOOLEAN, fam : {"L", "T13"}, dtls : {dtls}, limbo : BOOLEAN, retry : BOOLEAN] :
         /\ (role = "C" => ~c.cauth)                       \* a client learns of client-auth from CertificateRequest
         /\ (c.fam = "T13" => c.kx = "tls13" /\ ~c.resumed /\ ~c.tick /\ ~dtls)
         /\ (c.fam = "L" => c.kx # "tls13" /\ ~c.psk13 /\ ~c.early)
         /\ (c.early => c.psk13 /\ role = "S")
         /\ (c.retry => (c.fam = "T13" \/ (dtls /\ role = "S")))
-        /\ (c.tick => role = "C") }
+        /\ (c.tick => role = "C")
+        /\ (c.limbo => role = "C" /\ c.fam = "L" /\ ~c.resumed /\ ~c.tick) }
 
 MCInit ==
     \E role \in RoleSet, hs \in InitStates, d \in DtlsSet :
